@@ -3,8 +3,8 @@ from . import ref
 
 def replay_loads(data, enc, hexbm, cfg=None):
     from cardutil import iso8583
-    from cardutil.config import config
-    cfgs = cfg or config['bit_config']
+    from . import packaged
+    cfgs = cfg or packaged.bit_config()
     try:
         want, dontcare = ref.ref_decode(data, cfgs, enc, hexbm)
         rej = None
